@@ -999,6 +999,8 @@ pub struct HeaderBend {
     /// value written in the 8/16-bit block size extension
     pub bs_ext: Option<u32>,
     pub footer_pad_ones: bool,
+    /// blocking strategy bit: the coded number is the number of the frame's first sample (legal)
+    pub variable: bool,
 }
 
 #[derive(Debug, Clone)]
@@ -1072,7 +1074,7 @@ fn put_residual(o: &mut BitOut, method1: bool, parts: &[PartSpec], bend: &Bend) 
 pub fn write_frame(f: &FrameSpec) -> Vec<u8> {
     let mut o = BitOut::new();
     o.put(15, f.bend.sync.map(|s| s as u64).unwrap_or(0b111111111111100));
-    o.put(1, 0); // fixed block size stream
+    o.put(1, f.bend.variable as u64); // blocking strategy
     let natural_bs_code: u64 = match f.block_size {
         192 => 1,
         576 => 2,
